@@ -80,6 +80,7 @@ type wnFile struct {
 	order    []string         // data chunks in protocol order (C17)
 	apiDeleted bool           // deleted through the delete operation (not evicted)
 	partial    bool           // single chunks of it were fetched (it is not a complete known file)
+	upEpoch    int            // barrier epoch in which the last local upload of it ran
 }
 
 type wnWorld struct {
@@ -95,6 +96,7 @@ type wnWorld struct {
 	// uploadedChunks: chunk address -> number of live local uploads containing it
 	faultFree bool
 	cut       bool
+	epoch     int // number of barriers passed
 }
 
 func (w *wnWorld) file(id int64) *wnFile {
@@ -198,6 +200,7 @@ func (w *wnWorld) exec0(phase int, o gosim.Op) {
 		}
 		w.mu.Lock()
 		f.local, f.deleted = true, false
+		f.upEpoch = w.epoch
 		f.apiDeleted = false
 		f.have = map[string]bool{}
 		for _, c := range f.chunks {
@@ -233,30 +236,32 @@ func (w *wnWorld) exec0(phase int, o gosim.Op) {
 		w.mu.Unlock()
 		code, body := w.n0.Download(f.ref, f.name)
 		r.Logf("cache f=%d -> %d len=%d", f.id, code, len(body))
-		if code == 200 && len(r.Plan.Faults) > 0 && len(body) < len(f.content) && bytes.Equal(body, f.content[:len(body)]) {
+		if code == 200 && len(body) < len(f.content) && bytes.Equal(body, f.content[:len(body)]) {
 			// the link was lost while the body was streamed: a truncated (prefix)
 			// response is all HTTP can do after the status line went out
 			r.Count("download_truncated")
 			code = 0
 		}
+		if code == 200 && !bytes.Equal(body, f.content) {
+			r.Violate("wrong-content", "download of file %d returned %d bytes that differ from the uploaded content (%d bytes)", f.id, len(body), len(f.content))
+		}
+		// what the node holds of the file now is the new baseline: the file may have
+		// been evicted and (partly) fetched again since the last successful download
+		have := map[string]bool{}
+		for _, c := range f.chunks {
+			if ok, _ := w.n0.LS.Has(context.Background(), storage.ModeHasChunk, boson.MustParseHexAddress(c)); ok {
+				have[c] = true
+			}
+		}
+		w.mu.Lock()
+		if f.have == nil || !f.local {
+			f.have = have
+		}
 		if code == 200 {
-			if !bytes.Equal(body, f.content) {
-				r.Violate("wrong-content", "download of file %d returned %d bytes that differ from the uploaded content (%d bytes)", f.id, len(body), len(f.content))
-			}
-			have := map[string]bool{}
-			for _, c := range f.chunks {
-				if ok, _ := w.n0.LS.Has(context.Background(), storage.ModeHasChunk, boson.MustParseHexAddress(c)); ok {
-					have[c] = true
-				}
-			}
-			w.mu.Lock()
 			f.cached, f.deleted = true, false
-			f.apiDeleted = false
-			f.everCached = true
-			if f.have == nil || !f.local {
-				f.have = have
-			}
-			w.mu.Unlock()
+		}
+		w.mu.Unlock()
+		if code == 200 {
 			r.Count("probe_cached")
 		} else {
 			r.Count("download_failed")
@@ -274,7 +279,7 @@ func (w *wnWorld) exec0(phase int, o gosim.Op) {
 		}
 		code, body := w.n0.Download(f.ref, f.name)
 		r.Logf("read f=%d -> %d len=%d", f.id, code, len(body))
-		if code == 200 && len(r.Plan.Faults) > 0 && len(body) < len(f.content) && bytes.Equal(body, f.content[:len(body)]) {
+		if code == 200 && len(body) < len(f.content) && bytes.Equal(body, f.content[:len(body)]) {
 			code = 0
 		}
 		if code == 200 && !bytes.Equal(body, f.content) {
@@ -570,6 +575,7 @@ func wnExec(prop string) func(r *gosim.Run) {
 
 // barrier runs the oracles of the world's property at a quiescent point.
 func (w *wnWorld) barrier() {
+	defer func() { w.epoch++ }()
 	if w.cut {
 		w.cut = false
 		w.c.Net.Heal(w.n0.Net, w.n1.Net)
@@ -727,11 +733,15 @@ func (w *wnWorld) oracleC16() {
 // files used may remain.
 func (w *wnWorld) checkC16(d *nkDump, when string) {
 	files := w.sortedFiles()
+	evictedNow := map[string]bool{} // chunks of files found evicted at this barrier
 	for _, f := range files {
 		if !f.hasRef || f.uncertain || f.deleted || !(f.local || f.cached) {
 			continue
 		}
 		if _, rootPresent := d.Data[f.ref.String()]; !rootPresent && (f.everCached || f.everUnpinned) {
+			for _, c := range f.chunks {
+				evictedNow[c] = true
+			}
 			w.r.Logf("file %d was evicted", f.id)
 			w.r.Count("probe_c16_eviction_seen")
 			w.mu.Lock()
@@ -757,7 +767,14 @@ func (w *wnWorld) checkC16(d *nkDump, when string) {
 					continue
 				}
 				if _, ok := d.Data[c]; !ok {
-					w.r.Violate("other-file-broken", "%s: chunk %s needed by file %d (local=%v cached=%v pinned=%v), which was neither deleted nor evicted, is missing", when, c[:8], f.id, f.local, f.cached, f.pinned)
+					cls := "other-file-broken"
+					if f.local && f.upEpoch == w.epoch && evictedNow[c] {
+						// known family: the upload ran concurrently with the eviction of a
+						// cached file sharing this chunk (the upload registers its chunks
+						// with the reference counting only after storing them)
+						cls += "@upload-raced-eviction"
+					}
+					w.r.Violate(cls, "%s: chunk %s needed by file %d (local=%v cached=%v pinned=%v), which was neither deleted nor evicted, is missing", when, c[:8], f.id, f.local, f.cached, f.pinned)
 				}
 			}
 			w.r.Count("probe_c16_complete_checked")
